@@ -915,6 +915,173 @@ def graph_chain_table(F, rep, rule):
                   "terminal extensions are those of the line's ends" % rows, sample={"lines": rows})
 
 
+class KmerChainOracles(ChainOracles):
+    """the same scripted line, for the k-mer route: the elements are the keys of the index, each stored in line orientation or
+    reverse-complemented (unstranded only: the canonical form decides), the step function's neighbour is the stored key or its reverse
+    complement accordingly"""
+
+    def on_call(self, it, fn, args, dest_ty, term, caller):
+        path = fn.get("path", "")
+        name = path.split("::")[-1]
+        tr = fn.get("trait", "")
+        if is_print_call(fn):
+            return Opaque(dest_ty, {"fmt"})
+        if name == "get_key" and "BoomHashMap" in path:
+            return some(Ref(Cell(kmer_v("seed"), "seed")))
+        if name == "get_kmer_data" or (name in ("get", "get_mut") and "BoomHashMap" in path):
+            k = recv(it, args[1])
+            if kid(k) is None or kid(k)[0] not in self.setup():
+                raise Undecided("data look-up of a k-mer that is not on the scripted line (%r)" % (k,))
+            if kid(k)[1]:
+                raise Undecided("data look-up by the reverse complement of a key")
+            x = kid(k)[0]
+            if name == "get_kmer_data":
+                return Tup([Ref(Cell(Adt(EXTS, 0, [Int(8, False, val=self.exts_byte(x))]), "exts[%s]" % x)), self.data_ref(x)])
+            raise Undecided("index read %s" % name)
+        if name == "get_kmer_id" or (name == "get_key_id" and "BoomHashMap" in path):
+            k = recv(it, args[1])
+            if kid(k) is None:
+                raise Undecided("id look-up of an unknown k-mer %r" % (k,))
+            if kid(k)[1] or kid(k)[0] not in self.setup():
+                return none()       # the reverse complement of a key is not a key
+            return some(Int(64, False, bits=[TOP] * 64, tags=frozenset({"id:" + kid(k)[0]})))
+        if tr == "Kmer" and name == "is_palindrome":
+            return mkbool(False)
+        if tr == "Kmer" and name in ("extend", "extend_left", "extend_right"):
+            k = recv(it, args[0])
+            d = dir_of(args[2]) if name == "extend" else (LEFT if name == "extend_left" else RIGHT)
+            b = args[1].val if isinstance(args[1], Int) and args[1].is_conc() else None
+            if kid(k) and not kid(k)[1] and kid(k)[0] in self.setup() and d is not None and b is not None \
+                    and (self.exts_byte(kid(k)[0]) >> (b + (4 if d == RIGHT else 0))) & 1:
+                x = kid(k)[0]
+                y = self.neighbour(x, d)
+                if y is not None:
+                    # the neighbour as reached from x: its stored key, reverse-complemented when the two are stored in opposite orientations
+                    return Opaque("K", {"kmer"}, {"k": y, "rc": self.fwd[x] != self.fwd[y]})
+                return Opaque("K", {"kmer"}, {"k": "outside(%s,%s)" % (x, d), "rc": False})
+            raise Undecided("a k-mer that is not (a key of the line) extended by (one of its extensions): %r + %r towards %r" % (k, args[1], d))
+        if tr == "Kmer" and name in ("min_rc", "min_rc_flip") and kid(recv(it, args[0])):
+            k = recv(it, args[0])
+            can = kmer_v(kid(k)[0], False)     # the keys are the canonical forms
+            return Tup([can, mkbool(kid(k)[1])]) if name == "min_rc_flip" else can
+        if (path.endswith("BitSet::contains") or (name == "contains" and "bit_set" in path.split("<")[0])) and len(args) == 2:
+            x = self.id_of(args[1])
+            if x is None:
+                raise Undecided("availability of an unknown k-mer")
+            return mkbool(x not in self.removed)
+        if name == "join_test" and "CompressionSpec" in tr:
+            a, b = recv(it, args[1]), recv(it, args[2])
+            self.joins.append((a.info.get("fold") if isinstance(a, Opaque) else None, b.info.get("fold") if isinstance(b, Opaque) else None))
+            return mkbool(True)
+        return self.common(it, fn, args, dest_ty, term, caller)
+
+
+def kmer_chain_table(F, rep, rule):
+    """the k-mer route's node builder with its growth and step functions, all interpreted together, on scripted lines of k-mers"""
+    try:
+        step, ext = find_extender(F, False)
+        builders = find_callers(F, ext["path"], exclude=(ext["path"],))
+    except Unsupported as e:
+        rep.inconclusive(rule, "kmer-chain", str(e))
+        return
+    if len(builders) != 1:
+        rep.inconclusive(rule, "kmer-chain", "role discovery: expected one caller of the growth function, found %d" % len(builders))
+        return
+    body = builders[0]
+    if body["argc"] != 4:
+        rep.inconclusive(rule, "kmer-chain", "the node builder does not take (self, seed id, path buffer, sequence buffer): %d parameters" % body["argc"])
+        return
+    adt_path = C.adt_name(F, body["locals"][1])
+    key0 = "kmer-chain(%s)" % body["path"].split("::")[-1]
+    problems = []
+    rows = 0
+    K = 3
+    for stranded in (False, True):
+        def mk(script, stranded=stranded):
+            h = KmerChainOracles(script, stranded)
+            h.K = K
+            return h
+
+        def run(h, stranded=stranded):
+            it = Interp(F, False, h)
+            me = struct_of(F, adt_path, {"stranded": mkbool(stranded), "spec": Ref(Cell(Opaque("S", {"spec"}))),
+                                         "available_kmers": Opaque("bit_set::BitSet", {"available"}),
+                                         "index": Ref(Cell(Opaque("index", {"index"})))})
+            pcell = Cell(VecV([Tup([kmer_v("junk"), dir_v(LEFT)])]), "path")
+            ecell = Cell(DequeV([Int(8, False, val=9)]), "edge_seq")
+            r = it.call_body(body, [Ref(Cell(me, "self")), Int(64, False, bits=[TOP] * 64, tags=frozenset({"id:seed"})), Ref(pcell), Ref(ecell)])
+            return (r, ecell.v)
+        for a, out, h in explore(mk, run):
+            rows += 1
+            rep.evaluations += 1
+            row = dict(a, stranded=stranded)
+            if isinstance(out, tuple) and out and out[0] == "inconclusive":
+                rep.inconclusive(rule, key0 + "/row%d" % rows, "k-mer route on a scripted line: %s (row %s)" % (out[1], row))
+                return
+            if isinstance(out, tuple) and out and out[0] == "diverge":
+                problems.append(("the builder diverges: %s" % out[1], row))
+                continue
+            r, dq = out
+            line = h.setup()
+            i0 = line.index("seed")
+            want_seq = []
+            for x in line[:i0]:
+                want_seq.append(norm_base(x, not h.fwd[x], 0, K))
+            for i in range(K):
+                want_seq.append(norm_base("seed", False, i, K))
+            for x in line[i0 + 1:]:
+                want_seq.append(norm_base(x, not h.fwd[x], K - 1, K))
+            got_seq = [base_tag(e) for e in dq.elems] if isinstance(dq, DequeV) else None
+            if got_seq is None or any(x is None for x in got_seq):
+                rep.inconclusive(rule, key0 + "/row%d" % rows, "k-mer route on a scripted line: a base of the assembled sequence could not be traced to a k-mer position (%s)" % (got_seq,))
+                return
+            if got_seq != want_seq:
+                problems.append(("the assembled node sequence is %s; the line spells %s (b:<k-mer>:<stored position>:<complemented>)" % (got_seq, want_seq), row))
+                continue
+            want_joins = set()
+            for i in range(i0, 0, -1):
+                want_joins.add(((line[i],), (line[i - 1],)))
+            for i in range(i0, len(line) - 1):
+                want_joins.add(((line[i],), (line[i + 1],)))
+            if set(h.joins) != want_joins:
+                bad = [j for j in h.joins if j not in want_joins] or [j for j in want_joins if j not in h.joins]
+                problems.append(("the join predicate is asked about the payload pairs %s; required: once per link of the line, (payload of the k-mer the walk stands on, "
+                                 "payload of the k-mer it wants to enter) = %s — first difference %s" % (h.joins, sorted(want_joins), bad[0]), row))
+                continue
+            if not (isinstance(r, Tup) and len(r.fields) == 2):
+                rep.inconclusive(rule, key0 + "/row%d" % rows, "k-mer route on a scripted line: result shape %r" % (r,))
+                return
+            ex, data = r.fields
+            fold = data.info.get("fold") if isinstance(data, Opaque) else None
+            if fold is None or sorted(fold) != sorted(line):
+                problems.append(("the payload is folded over %s; the node consists of exactly %s" % (fold, line), row))
+                continue
+            if sorted(set(h.removed)) != sorted(line):
+                problems.append(("k-mers %s are taken out of the availability set; the node consists of %s" % (sorted(set(h.removed), key=str), sorted(line)), row))
+                continue
+            ev = ex.fields[0] if isinstance(ex, Adt) and ex.name == EXTS else None
+            lx, rx = line[0], line[-1]
+            lbits = (0b0011 if h.ends[0] == 2 else 0)
+            rbits = (0b0011 if h.ends[1] == 2 else 0)
+            want = (lbits if h.fwd[lx] else _rev4(lbits)) | ((rbits if h.fwd[rx] else _rev4(rbits)) << 4)
+            if not (isinstance(ev, Int) and ev.is_conc()):
+                rep.inconclusive(rule, key0 + "/row%d" % rows, "k-mer route on a scripted line: the node's extensions could not be evaluated (%r)" % (ev,))
+                return
+            if ev.val != want:
+                problems.append(("the node's extensions are %s; the line's two ends give %s (the extensions leaving the line, complemented where the end k-mer "
+                                 "is stored reverse-complemented)" % (bin(ev.val), bin(want)), row))
+    if problems:
+        msg, row = problems[0]
+        rep.violated(rule, key0, "k-mer route (step + growth + node builder interpreted together) on a scripted line of k-mers: %s  [line %s]" % (msg, row),
+                     witness={"kind": "row", "row": {k: str(v) for k, v in row.items()}, "problem": msg, "count": len(problems)},
+                     site=F.site(body, body["line"]))
+    else:
+        rep.holds(rule, key0, "k-mer route end to end: on all %d scripted lines (0-2 k-mers on either side of the seed, every stored orientation, open / branching "
+                  "ends, stranded and not) the node is the whole line spelled base by base, the join predicate is asked exactly about the payloads of the two linked "
+                  "k-mers, every k-mer of the node is taken out of the availability set and the terminal extensions are those of the line's ends" % rows,
+                  sample={"lines": rows})
+
+
 # =========================================================================== drivers
 
 from .dt import SetV, bitset_model
